@@ -405,6 +405,67 @@ def run_rspmix(job):
     return ('rspmix', 'rspmix', outcome, v, st, {'files': files, 'args': []})
 
 
+# ---- an optional subproject that fails after it declared things -----------------------------------------------------------
+# "subproject(required: false)" that fails is as if it had never been called: nothing it declared before the failure may be
+# left in the manifest or in the introspection data (a test without its executable leaves a dangling input behind).
+FAILSUB_THINGS = {
+    'exe+test': "e = executable('opt_selftest', 'o.c')\ntest('opt-selftest', e)",
+    'exe+benchmark': "eb = executable('opt_bench', 'o.c')\nbenchmark('opt-bench', eb)",
+    'ct': "custom_target('opt_ct', output: 'opt_ct.txt', command: [cp, files('o.c'), '@OUTPUT@'], build_by_default: true)",
+    'ct+test-depends': "c2 = custom_target('opt_ct2', output: 'opt_ct2.txt', command: [cp, files('o.c'), '@OUTPUT@'])\ntest('opt-uses-ct', cp, args: ['--version'], depends: c2)",
+    'lib-installed': "static_library('opt_lib', 'o.c', install: true)",
+    'install-data': "install_data('o.c', install_dir: 'share/opt')",
+    'run-target': "run_target('opt_run', command: [cp, '--version'])",
+    'alias': "ea = executable('opt_aliased', 'o.c', build_by_default: false)\nalias_target('opt_alias', ea)",
+    'install-script': "meson.add_install_script(cp, '--version')",
+    'generator': "g = generator(cp, output: '@BASENAME@.gen.c', arguments: ['@INPUT@', '@OUTPUT@'])\nexecutable('opt_gen', g.process('o.c'))",
+}
+FAILSUB_FAIL = {'error': "error('giving up')", 'missing-dependency': "dependency('verif-no-such-dependency')",
+                'failing-nested-subproject': "subproject('nosuchsub')"}
+
+
+def failsub_cases(thorough):
+    names = list(FAILSUB_THINGS)
+    cases = [((a,), f) for a in names for f in FAILSUB_FAIL]
+    if thorough:
+        cases += [((a, b), f) for a in names for b in names if a != b for f in ('error', 'missing-dependency')]
+    else:
+        cases += [((a, names[(i + 3) % len(names)]), 'missing-dependency') for i, a in enumerate(names)]
+    return cases
+
+
+def run_failsub(job):
+    from verif import mesonproc as mp
+    idx, things, fail = job
+    root = os.path.join(scratch_root(), 'c04f.%d' % os.getpid())
+    shutil.rmtree(root, ignore_errors=True)
+    sub = ["project('opt', 'c')", "cp = find_program('cp')"] + [FAILSUB_THINGS[t] for t in things] + [FAILSUB_FAIL[fail], "executable('opt_late', 'o.c')"]
+    files = {'meson.build': "project('main', 'c')\no = subproject('opt', required: false)\nassert(not o.found())\n"
+                            "app = executable('app', 'main.c')\ntest('app-runs', app)\nbenchmark('app-bench', app)\n",
+             'main.c': 'int main(void) { return 0; }\n',
+             'subprojects/opt/meson.build': '\n'.join(sub) + '\n', 'subprojects/opt/o.c': 'int main(void) { return 0; }\n'}
+    mp.write_tree(root, files)
+    res = mp.run_meson(['setup', 'b'], root)
+    bdir = os.path.join(root, 'b')
+    outcome, v, st = judge_setup(res, bdir)
+    if outcome == 'rejected':
+        v.append(('C04:failsub:setup-fails', 'the failing subproject is optional, yet meson setup fails: ' + res.out[-300:]))
+    elif outcome == 'configured':
+        txt = open(os.path.join(bdir, 'build.ninja')).read()
+        left = sorted(set(re.findall(r'[^\s:|]*(?:subprojects/opt|opt_)[^\s:|]*', txt)))
+        if left:
+            v.append(('C04:failsub:left-in-manifest', 'build.ninja still names %s of the subproject that failed' % left[:6]))
+        for f in ('intro-targets.json', 'intro-tests.json', 'intro-benchmarks.json', 'intro-installed.json', 'intro-install_plan.json'):
+            try:
+                blob = open(os.path.join(bdir, 'meson-info', f)).read()
+            except OSError:
+                continue
+            if 'opt_' in blob or 'opt-' in blob or 'subprojects/opt' in blob:
+                v.append(('C04:failsub:left-in-introspection:' + f, '%s still names something of the subproject that failed' % f))
+    shutil.rmtree(root, ignore_errors=True)
+    return ('failsub', '%s then %s' % ('+'.join(things), fail), outcome, v, st, {'files': files, 'args': [], 'failsub': [list(things), fail]})
+
+
 def dispatch(job):
     kind = job[0]
     if kind == 'unity':
@@ -419,6 +480,8 @@ def dispatch(job):
         return run_genshare(job[1:])
     if kind == 'rspmix':
         return run_rspmix(job[1:])
+    if kind == 'failsub':
+        return run_failsub(job[1:])
     return run_corpus(job[1:])
 
 
@@ -428,6 +491,12 @@ def main():
     if ck.args.replay:
         d = json.load(open(ck.args.replay))
         root = os.path.join(scratch_root(), 'replay')
+        if 'failsub' in d:
+            kind, name, outcome, v, st, rep = run_failsub((0, tuple(d['failsub'][0]), d['failsub'][1]))
+            print('outcome', outcome)
+            for k, w in v:
+                print(k, w)
+            sys.exit(1 if v else 0)
         if 'files' in d:
             mp.write_tree(root, d['files'])
             res = mp.run_meson(['setup', 'b'] + d.get('args', []), root)
@@ -479,6 +548,10 @@ def main():
     if ck.want('rspmix'):
         jobs.append(('rspmix', idx))
         idx += 1
+    if ck.want('failsub'):
+        for things, fail in failsub_cases(ck.thorough):
+            jobs.append(('failsub', idx, things, fail))
+            idx += 1
     if ck.want('genshare'):
         for seq in genshare_cases():
             jobs.append(('genshare', idx, seq))
